@@ -4099,9 +4099,14 @@ class PartitionTreeBuilder:
                 seed=rng,
                 **partition_opts,
             )
+            groups = separate(leaves, membership)
+            if len(groups) >= len(leaves):
+                # the partitioner merged nothing (e.g. no edges left between
+                # the current subgraphs) -> contract the remainder directly
+                break
             leaves = [
                 tree.contract_nodes(group, check=check, optimize=sub_optimize)
-                for group in separate(leaves, membership)
+                for group in groups
             ]
 
         if len(leaves) > 1:
